@@ -573,16 +573,25 @@ func TestVerifC11(t *testing.T) {
 			t.Fatal(err)
 		}
 		var r *c11Run
-		switch c.K {
-		case "script":
-			r = c11New(c.Bps, c.Dis)
-			for _, st := range c.Steps {
-				r.apply(st)
+		// a panic of the sender on a generated history is a violation of its own (it would take the QUIC connection's
+		// send loop down: "never stalled"), reported with this case as the failing input - not a harness failure
+		panicked, pmsg := vCatch(func() {
+			switch c.K {
+			case "script":
+				r = c11New(c.Bps, c.Dis)
+				for _, st := range c.Steps {
+					r.apply(st)
+				}
+			case "loop":
+				r = c11LoopRun(c)
+			default:
+				t.Fatalf("unknown case kind %q", c.K)
 			}
-		case "loop":
-			r = c11LoopRun(c)
-		default:
-			t.Fatalf("unknown case kind %q", c.K)
+		})
+		if panicked {
+			out.Emit(map[string]any{"i": i, "k": c.K, "steps": []any{}, "nobs": 0, "dig": "", "ok": false,
+				"why": "the sender panicked on this history: " + pmsg, "stats": map[string]any{}, "panic": true})
+			continue
 		}
 		ok, why, stats := c11Verdict(c, r.out)
 		out.Emit(map[string]any{"i": i, "k": c.K, "steps": r.out, "nobs": r.nobs, "dig": r.dig, "ok": ok, "why": why, "stats": stats})
